@@ -222,3 +222,18 @@ Proof.
   rewrite drop_ge by (rewrite app_length, replicate_length; lia).
   now rewrite app_nil_r, <- app_assoc.
 Qed.
+
+(** a seek from the end does not depend on where the handle stands: same answer from every
+    position, and on success the answer and the new position are [length + o] *)
+Lemma mem_reader_seek_end_ignores_position content pos pos' o :
+  fst (mem_reader_seek content pos (SeekEnd o)) = fst (mem_reader_seek content pos' (SeekEnd o)) /\
+  (forall n, fst (mem_reader_seek content pos (SeekEnd o)) = Ok n ->
+     n = (Z.of_nat (length content) + o)%Z /\ snd (mem_reader_seek content pos (SeekEnd o)) = n) /\
+  (forall e, fst (mem_reader_seek content pos (SeekEnd o)) = Err e ->
+     snd (mem_reader_seek content pos (SeekEnd o)) = pos).
+Proof.
+  cbn [mem_reader_seek].
+  destruct ((0 <=? Z.of_nat (length content) + o)%Z && (Z.of_nat (length content) + o <=? u64_max)%Z) eqn:E; cbn [fst snd].
+  - split; [reflexivity|]. split; [intros n [= <-]; split; reflexivity|intros e H; discriminate].
+  - split; [reflexivity|]. split; [intros n H; discriminate|intros e _; reflexivity].
+Qed.
